@@ -22,7 +22,6 @@ import (
 	"io/fs"
 	"os"
 	"path/filepath"
-	"runtime"
 	"sort"
 	"strings"
 	"sync"
@@ -533,11 +532,9 @@ func (w *watch) watch(fsw *fsnotify.Watcher, m *sync.Mutex, refresh func() error
 		return
 	}
 
-	eventMask := fsnotify.Rename | fsnotify.Remove | fsnotify.Write
-	// On macOS, we also need to watch for Create events.
-	if runtime.GOOS == "darwin" {
-		eventMask |= fsnotify.Create
-	}
+	// We also need Create events: a Spec file moved into a watched directory
+	// generates no other event (and on macOS neither does a new file).
+	eventMask := fsnotify.Rename | fsnotify.Remove | fsnotify.Write | fsnotify.Create
 
 	for {
 		select {
